@@ -483,6 +483,16 @@ def fixed_family():
     for v in long_names[1:]:
         rhs = ['bin', '*', rhs, ['call', 'max', [v, ['bin', '-', v, long_names[0]]]]]
     progs.append(([['assign', V('Product_of_many_long_names'), rhs]], [{'entry': 'evaluate', 'tpos': 0}]))
+    # offsets that leave the span at the first / last period of a multi-period solve; positions outside the span
+    progs.append(([['assign', V('Y'), ['bin', '*', ['num', '0.5'], V('X')]]],
+                  [{'entry': 'solve', 'opts': {'offset': 1}}, {'entry': 'solve', 'opts': {'offset': -1}},
+                   {'entry': 'solve', 'opts': {'offset': 1, 'failures': 'ignore', 'max_iter': 1}},
+                   {'entry': 'solve_t', 'tpos': 0, 'opts': {'offset': -1}}, {'entry': 'solve_t', 'tpos': 0, 'negative': True, 'opts': {'offset': -5}},
+                   {'entry': 'evaluate', 'oob': 0}, {'entry': 'evaluate', 'oob': 1, 'negative': True},
+                   {'entry': 'evaluate', 'oob': 3}, {'entry': 'evaluate', 'oob': 0, 'negative': True}]))
+    progs.append(([['assign', V('Y'), ['bin', '+', V('X', -1), V('Z', 1)]]],
+                  [{'entry': 'evaluate', 'oob': 0}, {'entry': 'evaluate', 'oob': 0, 'negative': True},
+                   {'entry': 'solve', 'opts': {'offset': 2}}, {'entry': 'solve', 'opts': {'offset': -2}}]))
     # max_iter = 0
     progs.append(([['assign', V('Y'), ['bin', '*', ['num', '0.5'], V('Y')]]],
                   [{'entry': 'solve_t', 'tpos': 0, 'opts': {'max_iter': 0, 'failures': f}} for f in ('raise', 'ignore')]
